@@ -284,10 +284,16 @@ def to_yaml_obj(doc):
     return out
 
 
-def dump(doc, path, flow=None):
+def dump(doc, path, flow=None, rotate=0):
+    """rotate > 0 rotates the order of the top-level sections (the format does
+    not prescribe one)"""
+    obj = to_yaml_obj(doc)
+    if rotate:
+        keys = list(obj)
+        k = rotate % len(keys)
+        obj = {key: obj[key] for key in keys[k:] + keys[:k]}
     with open(path, "w") as f:
-        yaml.safe_dump(to_yaml_obj(doc), f, sort_keys=False,
-                       default_flow_style=flow)
+        yaml.safe_dump(obj, f, sort_keys=False, default_flow_style=flow)
 
 
 _TMP = {}
